@@ -15,15 +15,15 @@ LEVEL = "model_checking"
 ENGINE = "E-HIST"
 TECHNIQUE = "explicit-state breadth-first search over call histories on real client objects (states rebuilt by replay from a reset process state, deduplicated by a fingerprint of client, model registers, shared argument objects and process globals; differential invariant on every transition) plus an exhaustive interpreter matrix over hash seeds"
 RULE = (
-    "(a) operations run(A) nonparametric / run(B) gaussian / run(C) bootstrap with cross-validated lambda / run(D) nonparametric with the outlier models enabled, summary(), fresh-client, perturb-globals "
+    "(a) operations run(A) nonparametric / run(B) gaussian / run(C) bootstrap with cross-validated lambda / run(D) nonparametric with the outlier models enabled / run(F) the request of D without outlier models on another baseline file, summary(), fresh-client, perturb-globals "
     "(advance numpy's and random's global generators, reorder warnings.filters, touch DEFAULT_AGGREGATES), with argument objects (baseline frame, feed "
-    "frame, config dict, parameter dict, lists) shared between calls or copied: every history up to depth D (7+49+343 at D=3) explored breadth-first "
-    "per first operation; invariant: every run(X)/summary() returns tables bit-identical to the reference for X. (b) the references (plus run(E): gaussian on a single configured state, whose state has its own calibration model) are reproduced in "
+    "frame, config dict, parameter dict, lists) shared between calls or copied: every history up to depth D (8+64+512 at D=3) explored breadth-first "
+    "per first operation; invariant: every run(X)/summary() returns tables bit-identical to the reference for X. (a') for run(E) and run(G) (bootstrap with an imposed contest correlation), which are not BFS operations: the histories [X], [perturb,X], [X,X], [X,perturb,X], [X,fresh,perturb,X] and [Y,X] for every BFS run Y. (b) the references (plus run(E): gaussian on a single configured state, whose state has its own calibration model) are reproduced in "
     "fresh interpreters with PYTHONHASHSEED in {0,1,2,12345}, twice each, including the historical client, and must all agree. (c) changing the seed "
     "setting changes some cell for every estimator. non-trivial = the history contains at least two operations"
 )
 ASSUMPTIONS = ["process state is reset before each replay (numpy/random global state, warnings.filters, DEFAULT_AGGREGATES); truly fresh interpreters are covered by (b)"]
-OPS = ["run:A", "run:B", "run:C", "run:D", "summary", "fresh", "perturb"]
+OPS = ["run:A", "run:B", "run:C", "run:D", "run:F", "summary", "fresh", "perturb"]
 # E is not a BFS operation (it would only widen the search); it is part of the interpreter matrix and the seed variation
 SELFCHECK_INDEX = 0
 
@@ -35,7 +35,14 @@ ARGSETS = {
     "E": dict(pi_method="gaussian", estimands=["turnout"], alphas=[0.9], aggregates=["postal_code", "county_fips", "unit"], features=[], model_parameters={}, states=["AA"], big=True),
     # D: the public defaults for the outlier models (both enabled)
     "D": dict(pi_method="nonparametric", estimands=["turnout"], alphas=[0.7], aggregates=["postal_code", "unit"], features=[], model_parameters={"fit_margin_outlier_model": True, "fit_turnout_outlier_model": True}),
+    # F: the same contest, estimands and configuration as B / D, but another baseline file (a corrected one: every third
+    # unit's baseline counts are a quarter lower) - equal in everything a cache key on the request could look at
+    "F": dict(pi_method="nonparametric", estimands=["turnout"], alphas=[0.7], aggregates=["postal_code", "unit"], features=[], model_parameters={}, alt=True),
+    # G: bootstrap with an imposed correlation between the two contests (documented, rarely used parameter: another sampling branch)
+    "G": dict(pi_method="bootstrap", estimands=["margin"], alphas=[0.9], aggregates=["postal_code", "unit"], features=["baseline_normalized_margin"], model_parameters={"B": 20, "contest_correlations": [[["AA", "BB"], 0.5]]}),
 }
+# argument sets that are not BFS operations get a fixed family of short histories instead (kind 'offbfs')
+OFF_BFS = ["E", "G"]
 
 
 def bounds(tier):
@@ -53,6 +60,9 @@ def cases(tier, seed):
     for hs in (0, 1, 2, 12345):
         for rep in (0, 1):
             out.append({"kind": "proc", "hashseed": hs, "rep": rep, "seed": seed})
+    for name in OFF_BFS:
+        for shared in (True, False):
+            out.append({"kind": "offbfs", "name": name, "shared": shared, "seed": seed})
     out.append({"kind": "seedvar", "seed": seed})
     return out
 
@@ -99,6 +109,10 @@ def make_args(seed):
     # calibration units a bootstrapped scale takes so few distinct values that it hides which random stream was used
     big = E.background(seed + 1, "G", 66, "AA2", partial=6)
     args["baseline_big"], args["feed_big"] = E.frames(big, cfg0)
+    alt = baseline.copy(deep=True)
+    for c in ("baseline_turnout", "baseline_dem", "baseline_gop"):
+        alt[c] = [int(v * 0.75) if i % 3 == 0 else v for i, v in enumerate(alt[c])]
+    args["baseline_alt"] = alt
     for name, a in ARGSETS.items():
         args[name] = copy.deepcopy(a)
     return args
@@ -111,6 +125,8 @@ def call_run(client, args, name, shared):
         args = dict(args, raw_config=raw_for)
     if a.get("big"):
         args = dict(args, baseline=args["baseline_big"], feed=args["feed_big"])
+    if a.get("alt"):
+        args = dict(args, baseline=args["baseline_alt"])
     if shared:
         baseline, feed, raw, est, alphas, aggs, feats, mp, fe = args["baseline"], args["feed"], args["raw_config"], a["estimands"], a["alphas"], a["aggregates"], a["features"], a["model_parameters"], a.get("fixed_effects", {})
     else:
@@ -215,10 +231,13 @@ def _fingerprint(client, args, last_model_name):
         regs.append(None if v is None else sha(np.asarray(v, dtype=float).round(12).tolist()))
     return sha(
         [
+            last_model_name,
+            sorted(vars(client).keys()),
             type(m).__name__,
             regs,
             sorted(client.all_conformalization_data_unit_dict.keys()),
             h(args["baseline"]),
+            h(args["baseline_alt"]),
             h(args["feed"]),
             json.dumps(args["raw_config"], sort_keys=True),
             json.dumps({k: args[k]["model_parameters"] for k in ARGSETS}, sort_keys=True),
@@ -255,6 +274,7 @@ def _replay(hist, shared, seed, refs, viol, cov, check_from=0):
     args = make_args(seed)
     client = ModelClient()
     last = None
+    ran = set()  # requests this client object has answered (anything it may have kept from them is part of the state)
     transitions = 0
     for i, op in enumerate(hist):
         transitions += 1
@@ -263,6 +283,7 @@ def _replay(hist, shared, seed, refs, viol, cov, check_from=0):
                 name = op[4:]
                 got = call_run(client, args, name, shared)
                 last = name
+                ran.add(name)
                 if i >= check_from:
                     d = _diff(refs[name], got)
                     cov["runs_compared"] += 1
@@ -281,12 +302,13 @@ def _replay(hist, shared, seed, refs, viol, cov, check_from=0):
             elif op == "fresh":
                 client = ModelClient()
                 last = None
+                ran = set()
             elif op == "perturb":
                 _perturb()
         except Exception as e:
             viol(f"history-raised:{type(e).__name__}", f"history {hist[: i + 1]} (arguments {'shared' if shared else 'copied'}): {type(e).__name__}: {str(e)[:300]}")
             return None, transitions
-    return _fingerprint(client, args, last), transitions
+    return _fingerprint(client, args, [last, sorted(ran)]), transitions
 
 
 def _bfs_case(case, cov, viol):
@@ -416,6 +438,16 @@ def evaluate(case):
     if case["kind"] == "bfs":
         t, n = _bfs_case(case, cov, viol)
         out.update(transitions=t, n_states=n, outcome=sha([v["sig"] for v in V]))
+    elif case["kind"] == "offbfs":
+        refs = references(case["seed"])
+        x = "run:" + case["name"]
+        hists = [[x], ["perturb", x], [x, x], [x, "perturb", x], [x, "fresh", "perturb", x]] + [[y, x] for y in OPS if y.startswith("run:")]
+        t = 0
+        for h in hists:
+            _, tr = _replay(h, case["shared"], case["seed"], refs, viol, cov, check_from=0)
+            t += tr
+            cov["off_bfs_histories"] += 1
+        out.update(transitions=t, outcome=sha([v["sig"] for v in V]))
     elif case["kind"] == "proc":
         data = _proc_case(case, cov, viol)
         out.update(transitions=5, data=data, outcome=sha(data))
@@ -443,4 +475,4 @@ def post(cases, results, tier, seed):
     return {"violations": viols, "cov": dict(cov)}
 
 
-REQUIRED_COUNTERS = {"runs_compared": 100, "summaries_compared": 5, "bfs_states": 50, "fresh_interpreters": 8, "interpreter_pairs_compared": 7, "seed_variations": 3}
+REQUIRED_COUNTERS = {"runs_compared": 100, "summaries_compared": 5, "bfs_states": 50, "fresh_interpreters": 8, "interpreter_pairs_compared": 7, "seed_variations": 3, "off_bfs_histories": 30}
